@@ -6,7 +6,7 @@ LEVEL = "other"
 EXHAUSTIVE = False
 EXPLANATION = ("Static analysis of the MIR of every instance of the runtime skeleton: cursor/tree balance on all paths (S1), "
                "completion at end of input (S2), snapshot/restore symmetry (S3), node-vector mutation discipline (S4), and no "
-               "consumption at end of input in generated rule functions (G-P1, token-set abstract interpretation). S5: a pending error node is closed before any other tree operation (a node inserted into an open error node makes a token appear twice); G-F2: no error report (which opens an error node) while an ordered-choice attempt can still be revoked (its mark would survive the truncation). Decides structural "
+               "consumption at end of input in generated rule functions (G-P1, token-set abstract interpretation). S5: a pending error node is closed before any other tree operation (a node inserted into an open error node makes a token appear twice); G-F2: no error report (which opens an error node) while an ordered-choice attempt can still be revoked (its mark would survive the truncation). S21: parse_rule opens the root node before init_skip, advance or the rule closure can push anything (tokens pushed earlier lie outside the tree). Decides structural "
                "necessary conditions of losslessness for all inputs; does not decide that the child iterator reaches every pushed node.")
 
 
@@ -17,5 +17,6 @@ def run(ctx, rep):
         lambda i, r, o: skel.s3_snapshot(i, r),
         lambda i, r, o: skel.s4_nodes(i, r),
         lambda i, r, o: skel.s5_errnode(i, r),
+        lambda i, r, o: skel.s21_root_first(i, r),
     ])
     common.g_rules(ctx, rep, ["P1", "F6", "F2"], floors={"P1": 500})
